@@ -5,9 +5,11 @@
 package peers
 
 import (
+	"bytes"
 	"errors"
 	"fmt"
 	"io"
+	"strings"
 	"sync"
 
 	json "github.com/go-json-experiment/json"
@@ -130,7 +132,7 @@ func (e *Env) MarshalTo(method string, id int, enc *jsontext.Encoder) error {
 	e.yield("peer/" + method)
 	if e.CheckOpts != nil {
 		if msg := e.CheckOpts(enc.Options()); msg != "" {
-			e.finding(method+": "+msg)
+			e.finding(method + ": " + msg)
 		}
 	}
 	switch b.Kind {
@@ -182,10 +184,11 @@ func (e *Env) MarshalTo(method string, id int, enc *jsontext.Encoder) error {
 			e.Depth--
 		}
 	case BReset:
+		e.FreshEncoderProbe(method, enc)
 		func() {
 			defer func() {
 				if r := recover(); r == nil {
-					e.finding(method+": Encoder.Reset inside a marshal call did not panic")
+					e.finding(method + ": Encoder.Reset inside a marshal call did not panic")
 				}
 			}()
 			enc.Reset(io.Discard)
@@ -207,7 +210,7 @@ func (e *Env) MarshalTo(method string, id int, enc *jsontext.Encoder) error {
 		func() {
 			defer func() {
 				if r := recover(); r == nil {
-					e.finding(method+": Encoder.Reset inside a marshal call did not panic after a nested MarshalEncode")
+					e.finding(method + ": Encoder.Reset inside a marshal call did not panic after a nested MarshalEncode")
 				}
 			}()
 			enc.Reset(io.Discard)
@@ -410,4 +413,44 @@ func (p POnce) MarshalJSONTo(e *jsontext.Encoder) error {
 		panic(PeerPanic{-1})
 	}
 	return e.WriteToken(jsontext.String("ok"))
+}
+
+// FreshEncoderProbe: inside a user-defined marshal call, an unrelated Encoder
+// built with the options of the Encoder in hand is an ordinary Encoder: it
+// separates top-level values with newlines and can be Reset.
+func (e *Env) FreshEncoderProbe(method string, enc *jsontext.Encoder) {
+	var bb bytes.Buffer
+	func() {
+		defer func() {
+			if r := recover(); r != nil {
+				e.finding(fmt.Sprintf("%s: an Encoder built with NewEncoder(w, enc.Options()) inside the call panicked: %v", method, r))
+			}
+		}()
+		e2 := jsontext.NewEncoder(&bb, enc.Options())
+		e2.WriteToken(jsontext.Int(1))
+		e2.WriteToken(jsontext.Int(2))
+		if got := bb.String(); got != "1\n2\n" {
+			e.finding(fmt.Sprintf("%s: an Encoder built with NewEncoder(w, enc.Options()) inside the call wrote %q for the values 1 and 2", method, got))
+		}
+		e2.Reset(&bb)
+	}()
+}
+
+// FreshDecoderProbe is the same for a Decoder.
+func (e *Env) FreshDecoderProbe(method string, dec *jsontext.Decoder) {
+	func() {
+		defer func() {
+			if r := recover(); r != nil {
+				e.finding(fmt.Sprintf("%s: a Decoder built with NewDecoder(r, dec.Options()) inside the call panicked: %v", method, r))
+			}
+		}()
+		d2 := jsontext.NewDecoder(strings.NewReader("1 2"), dec.Options())
+		v1, err1 := d2.ReadValue()
+		v1 = v1.Clone()
+		v2, err2 := d2.ReadValue()
+		if err1 != nil || err2 != nil || string(v1) != "1" || string(v2) != "2" {
+			e.finding(fmt.Sprintf("%s: a Decoder built with NewDecoder(r, dec.Options()) inside the call read %q,%q (%v,%v) from \"1 2\"", method, v1, v2, err1, err2))
+		}
+		d2.Reset(strings.NewReader("3"))
+	}()
 }
